@@ -150,9 +150,7 @@ class WebSocketCodec(BaseComponent):
                         self.fire(close())
                     break
                 # check for Ping
-                elif opcode == 9:
-                    if self._close_sent:
-                        return None
+                elif opcode == 9 and not self._close_sent:
                     frame = bytearray(b'\x8a')
                     frame += self._encode_tail(msg, self._sock is None)
                     self._write(frame)
